@@ -109,6 +109,26 @@ theorem C43_exact (l : List (BitVec 8)) (hlen : l.length < 2 ^ 31) :
       · exact absurd ((C43_good_iff l hlen).mp h) hV
       · exact h
 
+/-- SSL 3.0 variant: the verdict is 255 exactly when the announced padding fits; then exactly
+    `p+1` bytes are removed (no byte wrap-around for `p = 255`), otherwise nothing is removed. -/
+theorem C43_ssl30_exact (l : List (BitVec 8)) :
+    removePaddingSSL30 l = specResultSSL30 l ∧
+    ((removePaddingSSL30 l).2 = 255#8 ↔ ValidPadSSL30 l) := by
+  unfold removePaddingSSL30 specResultSSL30 ValidPadSSL30
+  generalize (l.getD (l.length - 1) 0).toNat = p
+  by_cases h0 : l.length < 1
+  · have h1 : ¬ (0 < l.length) := by omega
+    simp [h0, h1]
+  · have hpos : 0 < l.length := by omega
+    by_cases hp : p + 1 > l.length
+    · have h2 : ¬ (p + 1 ≤ l.length) := by omega
+      simp [h0, hp, hpos, h2]
+    · have h2 : p + 1 ≤ l.length := by omega
+      simp [h0, hp, hpos, h2]
+
+example : removePaddingSSL30 [7#8, 8#8, 9#8, 1#8] = ([7#8, 8#8], 255#8) := by decide
+example : (removePaddingSSL30 [7#8, 5#8]).2 = 0#8 := by decide
+
 /-! Non-vacuity and the former witnesses (inputs the unfixed code accepted). -/
 example : ValidPad [1#8, 2#8, 3#8, 2#8, 2#8, 2#8] := by
   refine ⟨by decide, by decide, ?_⟩
